@@ -60,27 +60,64 @@ func text(h []Ev) string {
 	return strings.Join(s, "; ")
 }
 
-// alphabet: grantees alice and bob; the restricted DSN's two tables and the
-// open DSN's t1 (thorough: and its t2); five permissions granted and revoked
-// one at a time, and the revoke-all request.
-func alphabet(thorough bool) []Ev {
-	type dt struct{ d, t string }
+// key is one (grantee, DSN, table) the events address.
+type key struct{ u, d, t string }
 
-	where := []dt{{dsnR, "t1"}, {dsnR, "t2"}, {dsnO, "t1"}}
-	if thorough {
-		where = append(where, dt{dsnO, "t2"})
+// search is one breadth-first search: its keys (every key contributes grant
+// and revoke of each of the five permissions and revoke-all) and its depth.
+type search struct {
+	Keys  []key
+	Depth int
+}
+
+func (s search) String() string {
+	k := make([]string, len(s.Keys))
+	for i, x := range s.Keys {
+		k[i] = x.u + "/" + x.d + "." + x.t
 	}
 
+	return fmt.Sprintf("depth<=%d over %d events on {%s}", s.Depth, len(s.events()), strings.Join(k, " "))
+}
+
+// searches of a tier. Quick: depth 2 over four keys -- alice/r.t1 and, relative
+// to it, another user (bob/r.t1), another table (alice/r.t2) and another DSN
+// (alice/o.t1). Thorough: depth 2 over alice and bob on all four dsn.table
+// pairs, and a deeper search (depth 3) on alice/r.t1, bob/r.t1, alice/r.t2
+// (orders of grant, revoke, re-grant and revoke-all on rows that interfere).
+func searches(thorough bool) []search {
+	wide := []key{{"alice", dsnR, "t1"}, {"bob", dsnR, "t1"}, {"alice", dsnR, "t2"}, {"alice", dsnO, "t1"}}
+
+	if thorough {
+		wide = nil
+
+		for _, u := range nonAdmins {
+			wide = append(wide, key{u, dsnR, "t1"}, key{u, dsnR, "t2"}, key{u, dsnO, "t1"}, key{u, dsnO, "t2"})
+		}
+	}
+
+	out := []search{{wide, 2}}
+
+	if thorough {
+		out = append(out, search{[]key{{"alice", dsnR, "t1"}, {"bob", dsnR, "t1"}, {"alice", dsnR, "t2"}}, 3})
+	}
+
+	if v := os.Getenv("VERIF_C43_DEPTH"); v != "" {
+		n, _ := strconv.Atoi(v)
+		out = []search{{wide, n}}
+	}
+
+	return out
+}
+
+func (s search) events() []Ev {
 	var evs []Ev
 
-	for _, u := range nonAdmins {
-		for _, x := range where {
-			for _, p := range perms {
-				evs = append(evs, Ev{"grant", u, x.d, x.t, p}, Ev{"revoke", u, x.d, x.t, p})
-			}
-
-			evs = append(evs, Ev{Op: "revoke-all", User: u, DSN: x.d, Table: x.t})
+	for _, x := range s.Keys {
+		for _, p := range perms {
+			evs = append(evs, Ev{"grant", x.u, x.d, x.t, p}, Ev{"revoke", x.u, x.d, x.t, p})
 		}
+
+		evs = append(evs, Ev{Op: "revoke-all", User: x.u, DSN: x.d, Table: x.t})
 	}
 
 	return evs
@@ -163,24 +200,13 @@ type witness struct {
 	Backend string   `json:"backend"`
 }
 
-func depthOf(r *report.R) int {
-	if v := os.Getenv("VERIF_C43_DEPTH"); v != "" {
-		n, _ := strconv.Atoi(v)
-
-		return n
-	}
-
-	return r.Pick(2, 3)
-}
-
 // explore runs the search in the parent and returns the distinct states in
 // the order they were first reached.
-func explore(r *report.R, w *world, evs []Ev, depth int) ([]state, seqx.Stats) {
+func explore(r *report.R, w *world, evs []Ev, depth int, seen map[string]bool) ([]state, seqx.Stats) {
 	var (
 		cur    []Ev
 		m      matrix
 		states []state
-		seen   = map[string]bool{}
 	)
 
 	st := seqx.Run(seqx.Spec[Ev]{
@@ -239,7 +265,7 @@ func probeState(r *report.R, w *world, s state, c *counters) {
 		report.Fatal("replaying %q gave the store %q, the search saw %q", text(s.History), k, s.Key)
 	}
 
-	for _, p := range probes() {
+	for _, p := range probes(r.Thorough()) {
 		w.probeOne(r, s, rows, p, c)
 	}
 }
@@ -294,10 +320,14 @@ func main() {
 		report.Fatal("VERIF_SCRATCH is not set")
 	}
 
-	depth := depthOf(r)
-	evs := alphabet(r.Thorough())
+	plan := searches(r.Thorough())
+	planText := make([]string, len(plan))
 
-	r.Rule(fmt.Sprintf("BFS (rt/seqx) over every history of depth<=%d over %d events (grant / revoke of one of %v, and revoke-all, for alice and bob on r.t1, r.t2, o.t1%s through the real permission endpoints; r restricted, o unrestricted), fresh store + replay per history; in every distinct state %d requests are probed (rows read/insert/update/delete, abstract read/insert/update, table delete, table create, transaction insert/update/delete/select/readrows/drop by alice and bob on r.t1 and r.t2, by the administrator on r, by alice on o); distinct = (store content, request)", depth, len(evs), perms, map[bool]string{true: ", o.t2", false: ""}[r.Thorough()], len(probes())))
+	for i, sp := range plan {
+		planText[i] = sp.String()
+	}
+
+	r.Rule(fmt.Sprintf("BFS (rt/seqx) over every history of %s (events: grant / revoke of one of %v, and revoke-all, per user/dsn.table key, through the real permission endpoints; r restricted, o unrestricted), fresh store + replay per history; in every distinct state %d requests are probed (rows read/insert/update/delete, abstract read/insert/update, table delete, table create, transaction insert/update/delete/select/readrows/drop by alice and bob on r.t1 and r.t2, by the administrator on r and by alice on o%s); distinct = (backend, store content, request)", strings.Join(planText, " and of "), perms, len(probes(r.Thorough())), map[bool]string{true: "", false: " (these two on t1 only)"}[r.Thorough()]))
 	r.Assume(
 		"what the store records is read from table_perms by the harness's own SQLite connection; a request takes effect if it answers 2xx or the data file or the store differs afterwards; refused for want of a grant = 403",
 		"one-directional, as the statement: a non-administrator's request on the restricted DSN that takes effect without the matching grant (or the table's admin grant; for table delete/create/drop: the table's admin grant) recorded for exactly that user, DSN and table is a violation; a request that is refused although granted is counted, never a violation; if no granted request of a kind ever succeeds the run is void (exit 2)",
@@ -334,11 +364,30 @@ func main() {
 	}
 
 	w := newWorld(filepath.Join(scratch, "parent"), "memdb")
-	states, st := explore(r, w, evs, depth)
 
-	if st.Capped {
-		r.Capped("state cap reached")
+	var (
+		states []state
+		st     seqx.Stats
+		seen   = map[string]bool{}
+	)
+
+	for _, sp := range plan {
+		ss, s1 := explore(r, w, sp.events(), sp.Depth, seen)
+		states = append(states, ss...)
+		st.Transitions += s1.Transitions
+
+		if s1.Depth > st.Depth {
+			st.Depth = s1.Depth
+		}
+
+		if s1.Capped {
+			r.Capped("state cap reached")
+		}
+
+		r.Set("search: "+sp.String(), map[string]any{"states": s1.States, "transitions": s1.Transitions, "states_per_depth": s1.PerDepth, "new_distinct_states": len(ss)})
 	}
+
+	st.States = len(states)
 
 	b, err := json.Marshal(states)
 	must(err, "states")
@@ -410,10 +459,8 @@ func main() {
 	r.Set("states", st.States)
 	r.Set("transitions", st.Transitions)
 	r.Set("traces_validated_against_impl", st.Transitions)
-	r.Set("depth", depth)
-	r.Set("states_per_depth", st.PerDepth)
-	r.Set("events", len(evs))
-	r.Set("probes_per_state", len(probes()))
+	r.Set("depth", st.Depth)
+	r.Set("probes_per_state", len(probes(r.Thorough())))
 
 	for i, s := range states {
 		if i == 1 || i == len(states)/2 || i == len(states)-1 {
